@@ -208,6 +208,11 @@ func decodeBatchRecords(batch []byte, topic string, partition int32) ([]Record, 
 	}
 
 	recordsData := batch[recordBatchHeaderLen:]
+	// Every record occupies at least one byte, so a count larger than the
+	// remaining bytes is corrupt; do not let it size the allocation.
+	if int64(recordCount) > int64(len(recordsData)) {
+		return nil, fmt.Errorf("record count %d exceeds batch size", recordCount)
+	}
 	reader := bytes.NewReader(recordsData)
 	records := make([]Record, 0, recordCount)
 	for i := int32(0); i < recordCount; i++ {
@@ -225,7 +230,7 @@ func decodeRecord(reader *bytes.Reader, baseOffset int64, baseTimestamp int64, t
 	if err != nil {
 		return Record{}, err
 	}
-	if length < 0 {
+	if length < 0 || int64(length) > int64(reader.Len()) {
 		return Record{}, fmt.Errorf("invalid record length")
 	}
 
@@ -271,6 +276,10 @@ func decodeRecord(reader *bytes.Reader, baseOffset int64, baseTimestamp int64, t
 	if err != nil {
 		return Record{}, err
 	}
+	// Each header needs at least two bytes (key and value lengths).
+	if headerCount < 0 || int64(headerCount) > int64(buf.Len()) {
+		return Record{}, fmt.Errorf("invalid header count %d", headerCount)
+	}
 	headers := make([]Header, 0, headerCount)
 	for i := int32(0); i < headerCount; i++ {
 		headerKeyLen, err := readVarint(buf)
@@ -311,6 +320,9 @@ func parseIndex(data []byte) ([]indexEntry, error) {
 		return nil, fmt.Errorf("invalid index magic")
 	}
 	entryCount := int(binary.BigEndian.Uint32(data[6:10]))
+	if entryCount > (len(data)-16)/12 {
+		return nil, fmt.Errorf("index entry out of bounds")
+	}
 	entries := make([]indexEntry, 0, entryCount)
 	offset := 16
 	for i := 0; i < entryCount; i++ {
@@ -359,6 +371,9 @@ func zigZagDecode(value int32) int32 {
 func readNullableBytes(reader *bytes.Reader, length int32) ([]byte, error) {
 	if length < 0 {
 		return nil, nil
+	}
+	if int64(length) > int64(reader.Len()) {
+		return nil, io.ErrUnexpectedEOF
 	}
 	data := make([]byte, length)
 	if _, err := io.ReadFull(reader, data); err != nil {
